@@ -29,6 +29,17 @@ def run(ck):
     # block-style text as authors write it
     cases.append({"k": "rt", "id": ck.new_id(), "docs": [D({"f": "*x"})],
                   "rule": "detection:\n  A:\n    f: '*x'\n    g:\n    - \"?re\"\n    - 'true'\n  condition: A\ntrue_positives:\n- f: '1'\ntrue_negatives: []\n"})
+    # conditions with line breaks, tabs and repeated blanks between tokens (block scalars as authors
+    # write them): the serialised condition must still be the same condition
+    ids = {"A": {"foo": "foo*"}, "B": {"bar": "*bar"}, "notB": {"bar": "nope"}, "C": {"baz": 1}}
+    wdocs = [D({"foo": "foobar", "bar": "foobar"}), D({"foo": "foobar", "bar": "nope"}), D({"foo": "x"}), D({"baz": 1}), D({})]
+    for cond in ("A\nand B", "A and\nB", "A and not \nB", "A\n  and B\n  and not C", "A\tand\tB", "A   or   B", "(A\n)\nor (\nB )", "not\nA",
+                 "all(A)\nor of(B,\n 1)", " A and B ", "A and not\n notB", "A or\r\nB"):
+        cases.append({"k": "rt", "id": ck.new_id(), "rule": rule_text(dict(ids, condition=cond), [], []), "docs": wdocs})
+    cases.append({"k": "rt", "id": ck.new_id(), "docs": wdocs,
+                  "rule": "detection:\n  A: {foo: 'foo*'}\n  B: {bar: '*bar'}\n  C: {baz: 1}\n  condition: |\n    A\n    and B\n    and not C\ntrue_positives: []\ntrue_negatives: []\n"})
+    cases.append({"k": "rt", "id": ck.new_id(), "docs": wdocs,
+                  "rule": "detection:\n  A: {foo: 'foo*'}\n  B: {bar: '*bar'}\n  condition: >\n    A\n    or\n    B\ntrue_positives: []\ntrue_negatives: []\n"})
     kfw = []
     for entry, w in rulebase.known_witnesses("C14"):
         if w:
